@@ -1,5 +1,6 @@
 """C07 - array length limits are enforced at every nesting level."""
 import itertools
+import json
 
 from vlib.valuecheck import build_cases, evaluate, replay, collide_root  # noqa: F401
 from vlib.kitchen import run_cases
@@ -48,6 +49,40 @@ def systematic():
 CLASSES = {"items", "items-valid", "optional-absent", "null-allowed", "valid"}
 
 
+def contradictory_cases():
+    """limits that leave no admissible length (minItems > maxItems): every present array is invalid, whatever its length; absent and (where allowed) null still pass"""
+    from vlib.kitchen import Case
+    out = []
+    n = 0
+    for mn, mx in ((4, 2), (3, 1), (2, 1), (5, 3)):
+        arr = {"type": "array", "items": {"type": "string"}, "minItems": mn, "maxItems": mx}
+        nested = {"type": "array", "items": dict(arr), "minItems": mn, "maxItems": mx}
+        root = {"type": "object", "properties": {"req": arr, "opt": dict(arr), "nul": dict(arr, type=["array", "null"]), "deep": nested,
+                                                 "ok": {"type": "array", "items": {"type": "string"}, "minItems": 1, "maxItems": mn}}, "required": ["req"]}
+        docs = []
+        for ln in range(0, mn + 2):
+            v = ["x"] * ln
+            docs.append({"doc": {"req": v}, "cls": "items", "path": ("req",), "expect": "REJ"})
+            docs.append({"doc": {"req": ["x"] * (mn + 3), "opt": v}, "cls": "items", "path": ("opt",), "expect": "REJ"})
+        for ln in range(mx, mn + 1):
+            v = ["x"] * ln
+            docs.append({"doc": {"opt": v}, "cls": "required", "path": ("req",), "expect": "REJ"})
+            docs.append({"doc": {"nul": v, "ok": ["a"]}, "cls": "required", "path": ("req",), "expect": "REJ"})
+        out.append(Case("c07ct%d" % n, root, docs, fam="contradictory-limits/%d>%d" % (mn, mx), no_model=True))
+        n += 1
+        # without the required array: every key on its own
+        root2 = {"type": "object", "properties": {"opt": dict(arr), "nul": dict(arr, type=["array", "null"]), "deep": nested}}
+        docs2 = [{"doc": {}, "cls": "optional-absent", "path": (), "expect": "ACC"}, {"doc": {"nul": None}, "cls": "null-allowed", "path": ("nul",), "expect": "ACC"}]
+        for ln in range(0, mn + 2):
+            v = ["x"] * ln
+            docs2.append({"doc": {"opt": v}, "cls": "items", "path": ("opt",), "expect": "REJ"})
+            docs2.append({"doc": {"nul": v}, "cls": "items", "path": ("nul",), "expect": "REJ"})
+            docs2.append({"doc": {"deep": [v] * max(ln, 1)}, "cls": "items", "path": ("deep",), "expect": "REJ"})
+        out.append(Case("c07ct%d" % n, root2, docs2, fam="contradictory-limits/%d>%d" % (mn, mx), no_model=True))
+        n += 1
+    return out
+
+
 def run(ctx):
     ctx.proof_step(PROPS_FILE)
     sysm = systematic()
@@ -59,7 +94,24 @@ def run(ctx):
     cases = build_cases(ctx, len(sysm) + n, ["array"], CLASSES | {"type"}, "c07x", extra_schemas=sysm, docs_per=2 if ctx.tier == "quick" else 4)
     from vlib.overlay import overlay_cases
     cases = cases + overlay_cases("items", "c07")
-    run_cases(ctx, cases, "c07")
+    ct = contradictory_cases()
+    run_cases(ctx, cases + ct, "c07")
+    nct = 0
+    for c in ct:
+        if not c.build_ok:
+            if nct < 3:
+                ctx.violation("oracle", dict(c.replay_obj(), gen_err=c.gen_err, build_err=c.build_err), "%s: generation failed or does not build: %s" % (c.fam, (c.gen_err or c.build_err)[:300]))
+            nct += 1
+            continue
+        ctx.cov["programs"] += 1
+        for di, d in enumerate(c.docs):
+            o = d.get("obs") or {}
+            ctx.count({"f": c.fam, "d": d["doc"]}, d["expect"] == "REJ", "contradictory-limits")
+            if o.get("v") != d["expect"] and nct < 3:
+                ctx.violation("oracle", c.replay_obj(di), "%s: document %s should be %s (no length satisfies both limits), the generated code answers %s" % (
+                    c.fam, json.dumps(d["doc"]), d["expect"], o.get("v")))
+                nct += 1
+                break
     evaluate(ctx, cases, CLASSES, {"items": "invalid", "items-valid": "valid", "optional-absent": "by-spec", "null-allowed": "valid", "valid": "valid"},
              "array limits")
     from vlib.valuecheck import replay_findings
